@@ -89,6 +89,9 @@ impl MergeStrategy for CliqueGraphMergeStrategy {
             return Some(edge);
         }
 
+        #[cfg(clarabel_verif)]
+        crate::verif_hooks::c1718::note_traverse_fallback(t.snode[0].is_empty());
+
         // sort the weights in edges.nzval to find the permutation p
         let slicep = &mut p[0..self.edges.nzval.len()];
         sortperm_rev(slicep, &self.edges.nzval);
